@@ -717,6 +717,12 @@ func main() {
 	}
 
 	r := rec.NewRand(o.Seed)
+	// first, always: the witnesses of the repaired finding F5 ("-1|", "-5|", "-9223372036854775808|"
+	// without a page size, and "LTF8" over HTTP); they are also corpus/C19-f5-fixed.jsonl
+	for _, v := range []int{6, 9, 10} {
+		rn.run(caseDesc{G: "tok_read", S: 1, V: v})
+	}
+	rn.run(caseDesc{G: "http", S: 1, V: 31})
 	// systematic part: the variants of every generator (thinned in the quick tier)
 	for _, g := range generators {
 		step := 1
@@ -733,10 +739,6 @@ func main() {
 			}
 			rn.run(caseDesc{G: g.name, S: r.Uint64(), V: v})
 		}
-	}
-	// the F5 witnesses, always
-	for _, v := range []int{6, 9, 10} { // "-1|", "-5|", "-9223372036854775808|" with no page size
-		rn.run(caseDesc{G: "tok_read", S: 1, V: v, W: true})
 	}
 	// the model_validation_hascycle_cost witness: e_i: e_{i+1} or e_{i+1} or e_{i+1} from parent, 24 levels
 	rn.run(caseDesc{G: "model", S: 1, V: 2*nModelShapes + 15, W: true})
